@@ -713,10 +713,32 @@ func c04CyclicLayer() c04Layer {
 			if bi >= 2 && !(u == "> o" || u == "> toString(o)") {
 				continue
 			}
-			cs = append(cs, c04Case{Body: append(append([]string{}, b...), strings.Split(u, "\n")...), Group: "cyclic"})
+			cs = append(cs, c04Case{Body: append(append([]string{}, b...), strings.Split(u, "\n")...), Group: "self-containing-value/" + c04CyclicUse(u)})
 		}
 	}
 	return c04ListLayer("cyclic", cs)
+}
+
+// the consumer a self-containing value is handed to: the first built-in named in the use, else the statement form
+func c04CyclicUse(u string) string {
+	for _, f := range []string{"toString", "keys", "length", "join", "sort", "text", "html", "contains", "indexOf", "flat", "reverse"} {
+		if strings.Contains(u, f+"(") {
+			return f
+		}
+	}
+	switch {
+	case strings.Contains(u, "match"):
+		return "match"
+	case strings.Contains(u, "for "):
+		return "for"
+	case strings.Contains(u, "=="):
+		return "=="
+	case strings.Contains(u, "::"):
+		return "return-with-status"
+	case strings.Contains(u, ".a.a") || strings.Contains(u, "[0][0]"):
+		return "access"
+	}
+	return "return"
 }
 
 func c04AsyncLayer() c04Layer {
@@ -947,11 +969,13 @@ func c04GenSrc(spec string) []string {
 func c04LoopLayer(thorough bool) c04Layer {
 	var cs []c04Case
 	seen := map[string]int{}
+	// group = the mechanism a case probes; it is the last component of a runaway key, so every
+	// group must stand for one reason why the evaluation could fail to end
 	add := func(group string, nonterm bool, decls []string, body ...string) {
 		c := c04Case{Decls: decls, Body: body, Group: group, NonTerm: nonterm, NoVMRaw: true,
 			Async: strings.Contains(strings.Join(body, " "), "async")}
-		// every unbounded loop hangs the compiled mode for one reason; the quick tier pays the watchdog once per group
-		if !thorough && nonterm && seen[group] >= 2 {
+		// every loop without an exit costs the compiled mode its whole step budget; the quick tier pays that twice
+		if !thorough && group == "loop-without-exit" && seen[group] >= 2 {
 			c.SkipVM = true
 		}
 		seen[group]++
@@ -962,24 +986,32 @@ func c04LoopLayer(thorough bool) c04Layer {
 	add("bounded-loop", false, nil, "$ s = \"a\"", "$ i = 0", "while i < 10 {", "  s = s + s", "  i = i + 1", "}", "> length(s)")
 	add("bounded-loop", false, nil, "$ a = [1]", "$ i = 0", "while i < 10 {", "  a = a + a", "  i = i + 1", "}", "> length(a)")
 	add("bounded-loop", false, []string{"! fib(n: int) {", "  if n < 2 {", "    > n", "  }", "  > fib(n - 1) + fib(n - 2)", "}"}, "> fib(10)")
-	// non-terminating loops
-	add("unbounded-work", true, nil, "while true {", "}", "> 1")
-	add("unbounded-work", true, nil, "$ i = 0", "while true {", "  i = i + 1", "}", "> i")
-	add("unbounded-work", true, nil, "$ i = 0", "while i >= 0 {", "  i = i + 1", "  continue", "}", "> i")
-	add("unbounded-work", true, nil, "while true {", "  while true {", "    break", "  }", "}", "> 1")
-	add("unbounded-work", true, nil, "for v in [1, 2] {", "  while true {", "  }", "}", "> 1")
-	add("unbounded-work", true, nil, "if true {", "  while 1 == 1 {", "    $ y = 1", "  }", "}", "> 1")
-	// growth inside a non-terminating loop
-	add("unbounded-allocation", true, nil, "$ s = \"aaaaaaaa\"", "while true {", "  s = s + s", "}", "> 1")
-	add("unbounded-allocation", true, nil, "$ a = [1, 2, 3, 4]", "while true {", "  a = a + a", "}", "> 1")
-	add("unbounded-allocation", true, nil, "$ o = {a: 1}", "while true {", "  o = {a: o, b: o}", "}", "> 1")
-	add("unbounded-work", true, nil, "$ a = []", "while true {", "  a = a + [a]", "}", "> 1")
-	add("unbounded-work", true, nil, "$ a = []", "while true {", "  a = append(a, 1)", "}", "> 1")
-	// loops that terminate only after an astronomically long time although each loop is within the iteration bound
-	add("unbounded-work", true, nil, "$ i = 0", "while i < 900000 {", "  $ j = 0", "  while j < 900000 {", "    j = j + 1", "  }", "  i = i + 1", "}", "> i")
-	add("unbounded-allocation", true, nil, "$ s = \"aaaaaaaa\"", "$ i = 0", "while i < 100 {", "  s = s + s", "  i = i + 1", "}", "> length(s)")
-	add("unbounded-allocation", true, nil, "$ a = [1, 2, 3, 4]", "$ i = 0", "while i < 100 {", "  a = a + a", "  i = i + 1", "}", "> length(a)")
-	add("unbounded-allocation", true, nil, "$ a = [1, 2]", "for v in [1, 2, 3, 4, 5, 6, 7, 8, 9, 10, 11, 12, 13, 14, 15, 16, 17, 18, 19, 20, 21, 22, 23, 24, 25, 26, 27, 28, 29, 30, 31, 32, 33, 34, 35, 36, 37, 38, 39, 40] {", "  a = a + a", "}", "> length(a)")
+	// loops that never exit: only an iteration / step limit ends them
+	add("loop-without-exit", true, nil, "while true {", "}", "> 1")
+	add("loop-without-exit", true, nil, "$ i = 0", "while true {", "  i = i + 1", "}", "> i")
+	add("loop-without-exit", true, nil, "$ i = 0", "while i >= 0 {", "  i = i + 1", "  continue", "}", "> i")
+	add("loop-without-exit", true, nil, "while true {", "  while true {", "    break", "  }", "}", "> 1")
+	add("loop-without-exit", true, nil, "for v in [1, 2] {", "  while true {", "  }", "}", "> 1")
+	add("loop-without-exit", true, nil, "if true {", "  while 1 == 1 {", "    $ y = 1", "  }", "}", "> 1")
+	// ends through the iteration / step limit as long as append is amortised constant time
+	add("append-per-iteration", true, nil, "$ a = []", "while true {", "  a = append(a, 1)", "}", "> 1")
+	// a value that doubles on every iteration: no limit on iterations helps, only a limit on the size of a value.
+	// Every such case costs one watchdog period, so the quick tier runs one representative per group.
+	add("string-doubling", true, nil, "$ s = \"aaaaaaaa\"", "$ i = 0", "while i < 100 {", "  s = s + s", "  i = i + 1", "}", "> length(s)")
+	add("array-doubling", true, nil, "$ a = [1, 2, 3, 4]", "$ i = 0", "while i < 100 {", "  a = a + a", "  i = i + 1", "}", "> length(a)")
+	if thorough {
+		add("string-doubling", true, nil, "$ s = \"aaaaaaaa\"", "while true {", "  s = s + s", "}", "> 1")
+		add("array-doubling", true, nil, "$ a = [1, 2, 3, 4]", "while true {", "  a = a + a", "}", "> 1")
+		add("array-doubling", true, nil, "$ a = [1, 2]", "for v in [1, 2, 3, 4, 5, 6, 7, 8, 9, 10, 11, 12, 13, 14, 15, 16, 17, 18, 19, 20, 21, 22, 23, 24, 25, 26, 27, 28, 29, 30, 31, 32, 33, 34, 35, 36, 37, 38, 39, 40] {", "  a = a + a", "}", "> length(a)")
+	}
+	// 64 objects in memory, 2^64 nodes for whoever walks the value (here: the response encoder).  The unbounded form
+	// `while true { o = {a: o, b: o} }` is not used: the interpreter ends it through its iteration limit after 10^6
+	// allocations, which takes a few seconds of CPU - too close to the watchdog to give the same verdict on every machine.
+	add("object-doubling", true, nil, "$ o = {a: 1}", "$ i = 0", "while i < 64 {", "  o = {a: o, b: o}", "  i = i + 1", "}", "> o")
+	// an array that grows by one element and is copied on every iteration: quadratic work inside any iteration limit
+	add("growing-array-copied-per-iteration", true, nil, "$ a = []", "while true {", "  a = a + [a]", "}", "> 1")
+	// each loop stays within the per-loop iteration limit, the product does not
+	add("nested-loops-each-within-the-iteration-limit", true, nil, "$ i = 0", "while i < 900000 {", "  $ j = 0", "  while j < 900000 {", "    j = j + 1", "  }", "  i = i + 1", "}", "> i")
 	// recursion
 	add("unbounded-recursion", true, []string{"! r(n: any) {", "  > r(n)", "}"}, "> r(1)")
 	add("unbounded-recursion", true, []string{"! r(n: any) {", "  > [r(n + 1)]", "}"}, "> r(1)")
@@ -991,8 +1023,11 @@ func c04LoopLayer(thorough bool) c04Layer {
 	add("unbounded-recursion", true, []string{"! r(n: any) {", "  > n |> r", "}"}, "> r(1)")
 	add("unbounded-recursion", true, []string{"! r(n: any) {", "  $ f = async {", "    > r(n)", "  }", "  > await f", "}"}, "> r(1)")
 	add("unbounded-recursion", true, []string{"! r(n: any = r()) {", "  > n", "}"}, "> r()")
-	add("unbounded-work", true, []string{"! fib(n: int) {", "  if n < 2 {", "    > n", "  }", "  > fib(n - 1) + fib(n - 2)", "}"}, "> fib(90)")
-	add("unbounded-work", true, []string{"! t(n: int) {", "  if n < 1 {", "    > [1]", "  }", "  > t(n - 1) + t(n - 1)", "}"}, "> length(t(200))")
+	// recursion of bounded depth whose call tree is exponential
+	add("exponential-recursion-within-the-depth-limit", true, []string{"! fib(n: int) {", "  if n < 2 {", "    > n", "  }", "  > fib(n - 1) + fib(n - 2)", "}"}, "> fib(90)")
+	if thorough {
+		add("exponential-recursion-within-the-depth-limit", true, []string{"! t(n: int) {", "  if n < 1 {", "    > [1]", "  }", "  > t(n - 1) + t(n - 1)", "}"}, "> length(t(200))")
+	}
 	// async blocks that never finish
 	add("async-never-finishes", false, nil, "$ f = async {", "  while true {", "  }", "}", "> 1")
 	add("async-never-finishes", true, nil, "$ f = async {", "  while true {", "  }", "}", "> await f")
